@@ -112,6 +112,14 @@ class CallGen:
         name, cls = r.choice(env)
         if k < 0.45 or depth >= 3:
             return self.method_call(N(name), N(name), cls, r.choice(["m0", "m1", "m2", "m3", "gen"]), env, depth)
+        if k < 0.5:
+            # a method of the typed object a registered function returns (its processor rebuilt the call node)
+            fn, (lp, rcls) = sorted(self.m.funcs_typed.items())[0]
+            pos, kws, expected = self.shape(lp, env, depth, allow_missing=False)
+            self.sites.append((len(lp), depth))
+            fu = ast.Call(func=N(fn), args=pos, keywords=[ast.keyword(arg=kk, value=v) for kk, v in kws])
+            fx = ast.Call(func=N(fn), args=[e for e in expected if e is not None], keywords=[])
+            return self.method_call(fu, fx, rcls, r.choice(["m0", "m1", "m2", "m3"]), env, depth)
         if k < 0.55:
             return self.func_call(env, depth)
         if k < 0.7:
